@@ -712,7 +712,13 @@ static int32_t utc_load(struct jls_core_s * self, uint16_t signal_id) {
     }
     int64_t sample_rate = signal_def->sample_rate;
     int64_t sample_start = -3600 * sample_rate;  // within the last hour
-    return jls_core_utc(self, signal_id, sample_start, jls_tmap_add_cbk, signal->track_fsr->tmap);
+    int32_t rc = jls_core_utc(self, signal_id, sample_start, jls_tmap_add_cbk, signal->track_fsr->tmap);
+    if (rc) {
+        // a map holding only the entries read before the failure would serve the following calls
+        jls_tmap_free(signal->track_fsr->tmap);
+        signal->track_fsr->tmap = NULL;
+    }
+    return rc;
 }
 
 JLS_API int32_t jls_rd_sample_id_to_timestamp(struct jls_rd_s * self, uint16_t signal_id,
